@@ -1,7 +1,9 @@
 package main
 
 import (
+	"fmt"
 	"go/types"
+	"strings"
 
 	"golang.org/x/tools/go/ssa"
 )
@@ -17,8 +19,277 @@ func (e *Enc) traceAfterHook(st *State, c *ssa.CallCommon, key string, r Val) {}
 
 func (sc *SCtx) traceCall(x SCall) (Val, types.Type, error) { return Val{}, nil, nil }
 
-func (sc *SCtx) traceBuiltin(x SCall) (Val, types.Type, bool, error) { return Val{}, nil, false, nil }
+func (sc *SCtx) traceBuiltin(x SCall) (Val, types.Type, bool, error) {
+	e := sc.e
+	switch x.Fun {
+	case "lockstate":
+		// lockstate(e): 0 = not held by this activation, 1 = read-locked, 2 = write-locked
+		v, t, err := sc.eval(x.Args[0])
+		if err != nil {
+			return Val{}, nil, true, err
+		}
+		m, ok := e.mutexOf(t, v.T)
+		if !ok {
+			return Val{}, nil, true, fmt.Errorf("lockstate(): %v has no guarded_by declaration", t)
+		}
+		return tv(Select(e.comp(sc.st, "X:held", arrSort(SInt, SInt)), m)), nil, true, nil
+	case "lockaddr":
+		v, t, err := sc.eval(x.Args[0])
+		if err != nil {
+			return Val{}, nil, true, err
+		}
+		m, ok := e.mutexOf(t, v.T)
+		if !ok {
+			return Val{}, nil, true, fmt.Errorf("lockaddr(): %v has no guarded_by declaration", t)
+		}
+		return tv(m), nil, true, nil
+	case "heldmap":
+		return tv(e.comp(sc.st, "X:held", arrSort(SInt, SInt))), nil, true, nil
+	case "acq":
+		// acq(expr): value of expr at the acquire of the critical section being closed
+		if sc.acq == nil {
+			return Val{}, nil, true, fmt.Errorf("acq() is only available in critical clauses")
+		}
+		n := *sc
+		n.st = sc.acq
+		v, t, err := n.eval(x.Args[0])
+		return v, t, true, err
+	}
+	return Val{}, nil, false, nil
+}
 
 func (e *Enc) selectHook(st *State, ins *ssa.Select, idx Term) {}
 
-func (e *Enc) lockAtReturn(st *State, ins *ssa.Return) {}
+// ---------------------------------------------------------------------------
+// Lock discipline (C13)
+
+type guardDecl struct {
+	structName string // e.g. env.Env
+	mutexField string
+	fields     []string
+}
+
+func (P *Prog) guardDecls() []guardDecl {
+	var out []guardDecl
+	for _, g := range P.Spec.Guarded {
+		// "Env.rwMutex: values, types"   (struct of the declaring package)
+		parts := strings.SplitN(g, ":", 2)
+		if len(parts) != 2 {
+			continue
+		}
+		lhs := strings.TrimSpace(parts[0])
+		i := strings.LastIndex(lhs, ".")
+		if i < 0 {
+			continue
+		}
+		d := guardDecl{structName: lhs[:i], mutexField: lhs[i+1:]}
+		for _, f := range strings.Split(parts[1], ",") {
+			d.fields = append(d.fields, strings.TrimSpace(f))
+		}
+		out = append(out, d)
+	}
+	return out
+}
+
+// guardOfHeap: if heap (H:T.f) is guarded, the mutex heap name.
+func (e *Enc) guardOfHeap(heap string) (string, bool) {
+	for _, d := range e.P.guardDecls() {
+		for _, f := range d.fields {
+			if heap == "H:"+d.structName+"."+f {
+				return "H:" + d.structName + "." + d.mutexField, true
+			}
+		}
+	}
+	return "", false
+}
+
+func (e *Enc) mutexTerm(mutexHeap string, obj Term) Term {
+	f := "faddr_" + sanitize(mutexHeap)
+	e.decls.fun(f, []string{"Int"}, "Int")
+	e.decls.fun(f+"_inv", []string{"Int"}, "Int")
+	e.decls.add("ax:inj:"+f, fmt.Sprintf("(assert (forall ((o Int)) (! (= (%s_inv (%s o)) o) :pattern ((%s o)))))", f, f, f))
+	return app(SInt, f, obj)
+}
+
+func (e *Enc) mutexOf(t types.Type, obj Term) (Term, bool) {
+	st, ok := structOf(t)
+	if !ok {
+		return Term{}, false
+	}
+	for _, d := range e.P.guardDecls() {
+		if typeName(st) == d.structName {
+			return e.mutexTerm("H:"+d.structName+"."+d.mutexField, obj), true
+		}
+	}
+	return Term{}, false
+}
+
+var lockProps = []string{"C13"}
+
+// lockAccess: obligation that the guarding mutex of obj is held in the right mode for an access to heap.
+func (e *Enc) lockAccess(st *State, heap string, obj Term, write bool, what string) {
+	mh, ok := e.guardOfHeap(heap)
+	if !ok {
+		return
+	}
+	// objects allocated by this activation are not yet shared
+	held := Select(e.comp(st, "X:held", arrSort(SInt, SInt)), e.mutexTerm(mh, obj))
+	var goal Term
+	if write {
+		goal = Or(Eq(held, I(2)), Ge(e.root(obj), e.pre.hwm))
+	} else {
+		goal = Or(Ge(held, I(1)), Ge(e.root(obj), e.pre.hwm))
+	}
+	mode := "read"
+	if write {
+		mode = "write"
+	}
+	e.oblige("lock", what, lockProps, st.reach, goal, fmt.Sprintf("%s of guarded %s without holding its lock (%s mode)", mode, strings.TrimPrefix(heap, "H:"), mode), 0)
+}
+
+// isLockCall recognises sync.RWMutex operations.
+func lockOp(key string) string {
+	switch key {
+	case "(*sync.RWMutex).Lock":
+		return "Lock"
+	case "(*sync.RWMutex).Unlock":
+		return "Unlock"
+	case "(*sync.RWMutex).RLock":
+		return "RLock"
+	case "(*sync.RWMutex).RUnlock":
+		return "RUnlock"
+	}
+	return ""
+}
+
+func (e *Enc) lockCall(st *State, op string, c *ssa.CallCommon, ins ssa.Instruction) {
+	recv := e.val(st, c.Args[0])
+	var m Term
+	var obj Term
+	var structName string
+	if recv.A != nil && recv.A.kind == aHeap {
+		m = e.mutexTerm(recv.A.heap, recv.A.obj)
+		obj = recv.A.obj
+		if i := strings.LastIndex(recv.A.heap, "."); i > 2 {
+			structName = recv.A.heap[2:i]
+		}
+	} else {
+		m = e.asTerm(st, recv)
+	}
+	hs := arrSort(SInt, SInt)
+	held := e.comp(st, "X:held", hs)
+	cur := Select(held, m)
+	set := func(v int64) { st.heaps["X:held"] = e.def("held", Store(held, m, I(v))) }
+	switch op {
+	case "Lock", "RLock":
+		e.oblige("lock", "acquire."+op, lockProps, st.reach, Eq(cur, I(0)), "lock acquired while this activation already holds it (self-deadlock)", ins.Pos())
+		if op == "Lock" {
+			set(2)
+		} else {
+			set(1)
+		}
+		e.sectionCount++
+		k := e.sectionCount - 1
+		e.compSort["X:section"] = SInt
+		st.heaps["X:section"] = I(int64(k))
+		if e.concMode && obj.S != "" {
+			e.havocGuarded(st, structName, obj)
+		}
+		if e.acqStates == nil {
+			e.acqStates = map[int]*State{}
+		}
+		e.acqStates[k] = st.clone()
+	case "Unlock", "RUnlock":
+		want := int64(2)
+		if op == "RUnlock" {
+			want = 1
+		}
+		e.oblige("lock", "release."+op, lockProps, st.reach, Eq(cur, I(want)), "unlock of a lock that is not held in that mode", ins.Pos())
+		e.checkCritical(st, ins)
+		set(0)
+	}
+}
+
+// havocGuarded: another goroutine may have changed the guarded state between two critical sections.
+func (e *Enc) havocGuarded(st *State, structName string, obj Term) {
+	for _, d := range e.P.guardDecls() {
+		if d.structName != structName {
+			continue
+		}
+		stT, err := e.P.resolveType(shortType(structName), e.pkg)
+		if err != nil {
+			continue
+		}
+		s, ok := stT.Underlying().(*types.Struct)
+		if !ok {
+			continue
+		}
+		for _, fname := range d.fields {
+			for i := 0; i < s.NumFields(); i++ {
+				f := s.Field(i)
+				if f.Name() != fname {
+					continue
+				}
+				a := e.fieldAddr(obj, stT, i)
+				if a.A == nil {
+					continue
+				}
+				oldv := e.load(st, a.A)
+				nv := e.fresh("conc_"+fname, a.A.sort)
+				e.assume(st.reach, e.typeAssume(nv, f.Type(), st.hwm))
+				e.store(st, a.A, nv)
+				if mt, ok := f.Type().Underlying().(*types.Map); ok {
+					ps := arrSort(SInt, arrSort(sortOf(mt.Key()), SBool))
+					vs := arrSort(SInt, arrSort(sortOf(mt.Key()), sortOf(mt.Elem())))
+					hp := e.comp(st, mapPHeap(mt), ps)
+					hv := e.comp(st, mapVHeap(mt), vs)
+					hp = Store(hp, oldv, e.fresh("conc_mp", arrSort(sortOf(mt.Key()), SBool)))
+					hv = Store(hv, oldv, e.fresh("conc_mv", arrSort(sortOf(mt.Key()), sortOf(mt.Elem()))))
+					st.heaps[mapPHeap(mt)] = e.def("h", hp)
+					st.heaps[mapVHeap(mt)] = e.def("h", hv)
+				}
+			}
+		}
+	}
+}
+
+func shortType(structName string) string {
+	// "env.Env" -> "env.Env" is resolvable through ByName; keep as is
+	return structName
+}
+
+// checkCritical: the critical-section clauses of the contract, evaluated at a release.
+func (e *Enc) checkCritical(st *State, ins ssa.Instruction) {
+	if e.c == nil {
+		return
+	}
+	sec := e.comp(st, "X:section", SInt)
+	for k, cls := range e.c.Critical {
+		acq := e.acqStates[k]
+		if acq == nil {
+			continue
+		}
+		for i, cl := range cls {
+			sc := e.specCtx(st, e.pre)
+			sc.acq = acq
+			t, err := sc.evalBool(cl.Expr)
+			if err != nil {
+				e.unsupported = fmt.Sprintf("critical %d %q: %v", k, cl.Text, err)
+				return
+			}
+			anchor := cl.Label
+			if anchor == "" {
+				anchor = fmt.Sprintf("section%d.%d", k, i)
+			}
+			e.oblige("critical", anchor, clauseProps(cl, lockProps), st.reach, Imp(Eq(sec, I(int64(k))), t), "critical section "+fmt.Sprint(k)+": "+cl.Text, ins.Pos())
+		}
+	}
+}
+
+func (e *Enc) lockAtReturn(st *State, ins *ssa.Return) {
+	if _, ok := st.heaps["X:held"]; !ok {
+		return
+	}
+	hs := arrSort(SInt, SInt)
+	e.oblige("lock", "balanced", lockProps, st.reach, Eq(e.comp(st, "X:held", hs), e.comp(e.pre, "X:held", hs)), "every lock taken by the function is released on this exit", ins.Pos())
+}
